@@ -77,7 +77,12 @@ type World struct {
 	Seed uint64
 	rng  *Rand // scheduling decisions
 	mrng *Rand // map iteration orders
-	urng *Rand // uuid bytes
+	drng *Rand // clock drift
+	// Drift > 0: at a scheduling point, with probability 1/Drift, the earliest timer fires
+	// although tasks are runnable - running code takes time, so a sleeping task (the
+	// flusher polling every 100 ms) can wake in the middle of another task's call
+	Drift int
+	urng  *Rand // uuid bytes
 
 	tasks  []*Task
 	cur    *Task
@@ -131,6 +136,7 @@ func NewWorld(seed uint64) *World {
 		Seed:       seed,
 		rng:        NewRand(Mix(seed, 1)),
 		mrng:       NewRand(Mix(seed, 2)),
+		drng:       NewRand(Mix(seed, 4)),
 		urng:       NewRand(Mix(seed, 3)),
 		done:       make(chan struct{}),
 		MaxSteps:   5000000,
@@ -457,6 +463,20 @@ func (w *World) pickNext(curOK bool) *Task {
 	if w.exclusive && curOK && w.cur.state == tRunnable {
 		return w.cur
 	}
+	if w.Drift > 0 && !w.exclusive && len(w.timers) > 0 && w.drng.Intn(w.Drift) == 0 {
+		// only a timer that is due soon: the code that runs takes a little time, it must not
+		// make a quarter of an hour pass at once for the tasks that are in the middle of a call
+		min := w.timers[0].at
+		for _, tm := range w.timers {
+			if tm.at < min {
+				min = tm.at
+			}
+		}
+		if min-w.now <= 200*time.Millisecond {
+			w.advanceClock()
+			w.Stat("clock-drift")
+		}
+	}
 	for {
 		r := w.runnable()
 		if len(r) == 0 {
@@ -548,6 +568,28 @@ func (w *World) reportStuck(kind string) {
 	}
 	w.Deadlock = d
 	w.ev("stuck", len(d.Blocked), 0)
+}
+
+// TaskStates describes every task (debugging aid).
+//
+//go:norace
+func (w *World) TaskStates() string {
+	out := ""
+	for _, t := range w.tasks {
+		st := "runnable"
+		switch t.state {
+		case tBlocked:
+			st = "blocked on " + t.on
+		case tDone:
+			st = "done"
+		}
+		out += fmt.Sprintf("%s(t%d): %s; ", t.Name, t.ID, st)
+	}
+	out += fmt.Sprintf("now=%v timers:", w.now)
+	for _, tm := range w.timers {
+		out += fmt.Sprintf(" t%d@%v", tm.t.ID, tm.at)
+	}
+	return out
 }
 
 // switchTo transfers control from the current task to next and parks.
